@@ -285,6 +285,113 @@ def run(repo: Repo, chk: Check) -> None:
         chk.ob('R-PATH', fp.qualname, bool(res) and all(p.outcome == 'raise' for p in res), f'{name}: unknown entrypoint rejected', fp.loc,
                what='an unknown entrypoint name is accepted')
     chk.minimum('parameter type trees', ntrees, 14)
+    decoders_keep_class(repo, chk)
+
+
+DECODER_ROOTS = ('from_micheline_value', 'from_python_object', 'dummy')
+
+
+def decoders_keep_class(repo: Repo, chk: Check) -> None:
+    """C13.4: to_parameters names the entrypoint by the field annotation of the CLASS of the decoded value, so every decoder of every
+    Michelson type must build its result from the class it was called on (`cls(...)`, or another classmethod reached through `cls` /
+    `super()`), never from a static factory or a class named in the source, which yield the anonymous type."""
+    import ast
+    chk.set_clause('C13.4')
+    base = 'pytezos.michelson.types.base.MichelsonType'
+    work: List[Tuple[str, str]] = []
+    for cq in [base] + repo.subclasses(base):
+        if not cq.startswith('pytezos.michelson.types.'):
+            continue
+        for m in DECODER_ROOTS:
+            work.append((cq, m))
+    seen = set()
+    nret = 0
+    while work:
+        cq, m = work.pop()
+        fi = repo.find_method(cq, m)
+        if fi is None or (fi.qualname, ) in seen:
+            continue
+        seen.add((fi.qualname, ))
+        if 'classmethod' not in fi.decorators:
+            continue
+        owner = fi.cls.qualname if fi.cls else cq
+        params = fi.params()
+        cls_name = params[0] if params else 'cls'
+        assigns: Dict[str, List[ast.expr]] = {}
+        for n in ast.walk(fi.node):
+            if isinstance(n, ast.Assign) and len(n.targets) == 1 and isinstance(n.targets[0], ast.Name):
+                assigns.setdefault(n.targets[0].id, []).append(n.value)
+            elif isinstance(n, ast.AnnAssign) and isinstance(n.target, ast.Name) and n.value is not None:
+                assigns.setdefault(n.target.id, []).append(n.value)
+
+        def verdict(e: ast.expr, depth: int = 0) -> Optional[str]:
+            """None when the expression is built from the receiving class (or is of a form the rule does not judge)"""
+            if depth > 6:
+                return None
+            if isinstance(e, ast.IfExp):
+                return verdict(e.body, depth + 1) or verdict(e.orelse, depth + 1)
+            if isinstance(e, ast.Name):
+                if e.id == cls_name:
+                    return None
+                for v in assigns.get(e.id, []):
+                    r = verdict(v, depth + 1)
+                    if r:
+                        return r
+                return None
+            if not isinstance(e, ast.Call):
+                return None
+            f = e.func
+            if isinstance(f, ast.Name):
+                if f.id == 'cast' and len(e.args) == 2:
+                    return verdict(e.args[1], depth + 1)
+                if f.id == cls_name:
+                    return None
+                if f.id in assigns:  # an alias of the class
+                    for v in assigns[f.id]:
+                        if not (isinstance(v, ast.Name) and v.id == cls_name):
+                            return f'calls `{f.id}`, which is bound to `{ast.unparse(v)[:60]}` and not to the receiving class'
+                    return None
+                q = repo.resolve_name(fi.module, f.id)
+                if q in repo.classes and repo.is_subclass(q, base):
+                    return f'constructs the fixed class {f.id} instead of the receiving class'
+                return None
+            if isinstance(f, ast.Attribute):
+                recv = f.value
+                is_super = isinstance(recv, ast.Call) and isinstance(recv.func, ast.Name) and recv.func.id == 'super'
+                if isinstance(recv, ast.Name) and recv.id == cls_name or is_super:
+                    start = owner if not is_super else None
+                    target = None
+                    if is_super:
+                        mro = repo.mro(owner)
+                        for c in mro[1:]:
+                            ci = repo.classes.get(c)
+                            if ci and f.attr in ci.methods:
+                                target = ci.methods[f.attr]
+                                break
+                    else:
+                        target = repo.find_method(cq, f.attr)
+                    if target is None:
+                        return None
+                    if 'staticmethod' in target.decorators:
+                        return f'goes through the static factory {target.qualname}, which builds a fresh anonymous type'
+                    if 'classmethod' in target.decorators:
+                        work.append((cq if not is_super else (target.cls.qualname if target.cls else cq), f.attr))
+                    return None
+                if isinstance(recv, ast.Name):
+                    q = repo.resolve_name(fi.module, recv.id)
+                    if q in repo.classes and repo.is_subclass(q, base):
+                        return f'builds the value through the fixed class {recv.id} ({recv.id}.{f.attr}) instead of the receiving class'
+                return None
+            return None
+
+        for r in [n for n in ast.walk(fi.node) if isinstance(n, ast.Return) and n.value is not None]:
+            nret += 1
+            why = verdict(r.value)
+            chk.ob('R-OWNER', fi.qualname, why is None, f'return at line {r.lineno} is built from the receiving class', f'{fi.module.relpath}:{r.lineno}',
+                   {'returns': ast.unparse(r.value)[:120]},
+                   what=f'{fi.qualname} (decoder of a Michelson type, reached from {m}) returns `{ast.unparse(r.value)[:80]}`: it {why}; the decoded value loses the '
+                        'field annotation of the parameter branch it was decoded for, so to_parameters addresses it to another entrypoint')
+    chk.minimum('decoder return statements', nret, 80)
 
 
 def controls(chk: Check) -> None:
